@@ -76,7 +76,10 @@ def gen_tables(rng, tier, max_h=40, max_p=80):
             if k in d and rng.random() < 0.15:
                 del d[k]
         return d
-    return {'L': L, 'halos': halos, 'parts': parts, 'tracers': {t: tr(t) for t in tracers},
+    tracer_order = list(tracers)
+    if rng.random() < 0.5:
+        rng.shuffle(tracer_order)
+    return {'L': L, 'halos': halos, 'parts': parts, 'tracers': {t: tr(t) for t in tracers}, 'tracer_order': tracer_order,
             'Mpart': 2.1e9, 'velz2kms': rng.uniform(20.0, 200.0),
             'rsd': rng.random() < 0.6, 'origin': None if rng.random() < 0.7 else [rng.uniform(-L, L) * 3 for _ in range(3)],
             'enable_ranks': rng.random() < 0.4, 'want_AB': rng.random() < 0.6, 'want_shear': rng.random() < 0.5,
